@@ -129,7 +129,14 @@ def set_state_sweep(chk, MX, n):
             if not np.allclose(after["v"], before["v"], rtol=1e-9, atol=1e-8):
                 problems.append(("earth-fixed-velocity-changed", before["v"], after["v"]))
             e0, e1 = api.quat_to_euler_deg(before["q"]), api.quat_to_euler_deg(after["q"])
-            if abs(e0[0] - e1[0]) > 1e-6 or abs(e0[2] - e1[2]) > 1e-6:
+
+            def wrap(x):
+                return (x + 180.0) % 360.0 - 180.0
+            # the same attitude has two Euler triples, (phi, theta, psi) and (phi+180, 180-theta, psi+180): a trim that carries the
+            # elevation across +-90 degrees keeps bank and heading although the principal angles jump
+            same = abs(wrap(e0[0] - e1[0])) <= 1e-6 and abs(wrap(e0[2] - e1[2])) <= 1e-6
+            flipped = abs(wrap(e0[0] - e1[0] - 180.0)) <= 1e-6 and abs(wrap(e0[2] - e1[2] - 180.0)) <= 1e-6
+            if not (same or flipped):
                 problems.append(("bank-or-heading-changed", e0, e1))
             for c in ("aileron", "rudder"):
                 if abs(after["controls"][c] - before["controls"][c]) > 1e-12:
